@@ -631,7 +631,9 @@ func definedUnder(v ssa.Value, header *ssa.BasicBlock) bool {
 // assume adds the literal for taking the given outcome of an If; ok=false if the path becomes infeasible.
 func (q *PathQuery) assume(st *PathState, t *ssa.If, outcome bool) (*PathState, bool) {
 	cond := st.Resolve(t.Cond)
-	for {
+	// strip negations; bounded, because a flag that is toggled in a loop (`in = !in`) resolves through its phi to its
+	// own negation again and again
+	for i := 0; i < 8; i++ {
 		u, ok := cond.(*ssa.UnOp)
 		if !ok || u.Op != token.NOT {
 			break
